@@ -1,13 +1,13 @@
 (* Re-checked on EVERY run against the definitions REGENERATED from /repo's current source by gen/c08_py2coq.py (Gen_c08_forward.v):
    the index / stacking logic of the tomography forward model, as written in Python today, equals the hand-written model of
-   Model/C08_Forward.v about which the property theorems (Props/C08.v) are stated. Translated (29 definitions):
+   Model/C08_Forward.v about which the property theorems (Props/C08.v) are stated. Translated (34 definitions):
      num_variables formulas of StandardQst / Povmt / Qpt / Qmpt.__init__ ; num_outcomes of the four classes (schedule -> tester lookup) ;
      StandardQst._set_coeffs, StandardPovmt._set_coeffs, calc_c_qpt, StandardQpt._set_coeffs, cqpt_to_cqmpt, StandardQmpt._set_coeffs
      (dictionary keys (schedule_index, x), tester lookup, zero-block offsets, slices) ; calc_matA, calc_vecB (sorted stacking) ;
      the split of calc_prob_dists and the slice of calc_fisher_matrix (callees truncate_and_normalize / matrix_util.calc_fisher_matrix
      are uninterpreted parameters) ; the loop of Experiment.calc_prob_dists (calc_prob_dist uninterpreted) ;
      Experiment.calc_prob_dist (object lookup + reverse-order composition, compose_qoperations uninterpreted) ; _get_target_index of the four
-     classes ; StandardQTomography.calc_prob_dist ; get_coeffs_0th_vec / get_coeffs_1st_mat ; is_all_same_composite_systems (CompositeSystem.__eq__ uninterpreted) ; is_fullrank_matA (np.linalg.matrix_rank uninterpreted).
+     classes ; StandardQTomography.calc_prob_dist ; get_coeffs_0th_vec / get_coeffs_1st_mat ; is_all_same_composite_systems (CompositeSystem.__eq__ uninterpreted) ; generate_prob_dists_sequence (slot replacement loop) ; is_valid_experiment of the four classes ; is_fullrank_matA (np.linalg.matrix_rank uninterpreted).
    Schedules are lists of item indices ([enc_qst], [enc_povmt], [enc3] in Proofs/C08_NpSem.v). The last four theorems transport the
    forward-model property to the regenerated code: matA / vecB computed by the regenerated functions predict the Born statistics.
    A behaviour-changing edit of a translated function makes this file fail to compile: the check then reports the tie broken and its
@@ -28,31 +28,26 @@ Notation D1 := (d_of F (@fst (lvec F) F)).
 (* ---- num_variables *)
 Lemma sq_pos d : (1 <= d)%nat -> (1 <= d * d)%nat.
 Proof. intros H. change 1%nat with (1 * 1)%nat. now apply Nat.mul_le_mono. Qed.
+(* the four proofs push Z.of_nat through the model's formula and finish with [ring]: any algebraically equivalent rewrite of the Python
+   expression (e.g. dim ** 2 * (dim ** 2 - 1)) is still accepted *)
+Ltac nv_solve := cbv zeta; repeat (rewrite !Nat2Z.inj_mul || (rewrite Nat2Z.inj_sub by lia)); change (Z.of_nat 1) with 1%Z; ring.
 Theorem gen_qst_num_variables_eq : forall para d, (1 <= d)%nat ->
   gen_qst_num_variables F (Z.of_nat d) para = Z.of_nat (qst_num_variables para d).
-Proof. intros para d Hd. pose proof (sq_pos d Hd). unfold gen_qst_num_variables, qst_num_variables. destruct para.
-  - rewrite Nat2Z.inj_sub, Nat2Z.inj_mul by lia. reflexivity.
-  - now rewrite Nat2Z.inj_mul. Qed.
+Proof. intros para d Hd. pose proof (sq_pos d Hd). unfold gen_qst_num_variables, qst_num_variables. destruct para; nv_solve. Qed.
 Theorem gen_povmt_num_variables_eq : forall para d m, (1 <= m)%nat ->
   gen_povmt_num_variables F (Z.of_nat d) (Z.of_nat m) para = Z.of_nat (povmt_num_variables para d m).
-Proof. intros para d m Hm. unfold gen_povmt_num_variables, povmt_num_variables. destruct para.
-  - rewrite !Nat2Z.inj_mul, Nat2Z.inj_sub by lia. reflexivity.
-  - now rewrite !Nat2Z.inj_mul. Qed.
+Proof. intros para d m Hm. unfold gen_povmt_num_variables, povmt_num_variables. destruct para; nv_solve. Qed.
 Theorem gen_qpt_num_variables_eq : forall para d, (1 <= d)%nat ->
   gen_qpt_num_variables F (Z.of_nat d) para = Z.of_nat (qpt_num_variables para d).
 Proof. intros para d Hd. pose proof (sq_pos d Hd) as H1. unfold gen_qpt_num_variables, qpt_num_variables.
   assert (H2 : (d * d <= d * d * (d * d))%nat). { rewrite <- (Nat.mul_1_r (d * d)) at 1. now apply Nat.mul_le_mono_l. }
-  destruct para.
-  - rewrite Nat2Z.inj_sub, !Nat2Z.inj_mul by lia. ring.
-  - rewrite !Nat2Z.inj_mul. ring. Qed.
+  destruct para; nv_solve. Qed.
 Theorem gen_qmpt_num_variables_eq : forall para d m, (1 <= d)%nat -> (1 <= m)%nat ->
   gen_qmpt_num_variables F (Z.of_nat d) (Z.of_nat m) para = Z.of_nat (qmpt_num_variables para d m).
 Proof. intros para d m Hd Hm. pose proof (sq_pos d Hd) as H1. unfold gen_qmpt_num_variables, qmpt_num_variables.
   assert (H2 : (d * d <= m * (d * d * (d * d)))%nat).
   { rewrite <- (Nat.mul_1_r (d * d)) at 1. rewrite <- (Nat.mul_1_l (d * d * 1)). apply Nat.mul_le_mono; [exact Hm|]. now apply Nat.mul_le_mono_l. }
-  destruct para.
-  - rewrite Nat2Z.inj_sub, !Nat2Z.inj_mul by lia. ring.
-  - rewrite !Nat2Z.inj_mul. ring. Qed.
+  destruct para; nv_solve. Qed.
 
 (* ---- num_outcomes: schedule -> tester lookup *)
 Theorem gen_qst_num_outcomes_eq : forall (povms : list (list (lvec F))) (scheds : list nat) j, (j < length scheds)%nat ->
@@ -357,6 +352,39 @@ Proof. intros same targets. unfold gen_is_all_same_composite_systems. destruct t
   change 1%Z with (Z.of_nat 1). rewrite py_slice_from. cbn [skipn]. change (znth 0%Z (t0 :: t1 :: rest) 0%Z) with t0.
   generalize (t1 :: rest) as l. intros l. induction l as [|x l IH]; [reflexivity|]. cbn [map forallb]. now rewrite IH. Qed.
 
+(* ---- generate_prob_dists_sequence: (on the copy of the experiment) for every schedule index in order, the slot named by
+   _get_target_index is overwritten with the true object; then Experiment.calc_prob_dists evaluates the updated object list.
+   [slots] = the copy's objects of the estimated kind, _get_target_index and calc_prob_dists uninterpreted. *)
+Theorem gen_generate_prob_dists_sequence_eq : forall ec (scheds : list (list Z)) (slots : list Z) (gti : Z -> Z) (cpd : list Z -> list (list F)) obj,
+  gen_generate_prob_dists_sequence F ec scheds slots gti cpd obj
+  = cpd (fold_left (fun s j => py_list_set s (gti (Z.of_nat j)) obj) (seq 0 (length scheds)) slots).
+Proof. intros ec scheds slots gti cpd obj. unfold gen_generate_prob_dists_sequence, zlen. cbv zeta. rewrite zrange_of_nat. f_equal.
+  generalize (seq 0 (length scheds)) as l. intros l. revert slots. induction l as [|j l IH]; intros slots; [reflexivity|]. cbn [map fold_left]. apply IH. Qed.
+(* with the target index of the four classes (gen_get_target_index_eq: always object 0): the unknown's slot holds the true object, every
+   other object of that kind is untouched, for ANY non-empty schedule list (repetitions included) *)
+Theorem gen_generate_prob_dists_sequence_slot0 : forall ec (scheds : list (list Z)) s0 (rest : list Z) (gti : Z -> Z) (cpd : list Z -> list (list F)) obj,
+  scheds <> [] -> (forall j, (j < length scheds)%nat -> gti (Z.of_nat j) = 0%Z) ->
+  gen_generate_prob_dists_sequence F ec scheds (s0 :: rest) gti cpd obj = cpd (obj :: rest).
+Proof. intros ec scheds s0 rest gti cpd obj Hne Hg. rewrite gen_generate_prob_dists_sequence_eq. f_equal.
+  assert (H : forall (l : list nat) x, (forall j, In j l -> gti (Z.of_nat j) = 0%Z) -> l <> [] ->
+            fold_left (fun s j => py_list_set s (gti (Z.of_nat j)) obj) l (x :: rest) = obj :: rest).
+  { induction l as [|j l IH]; intros x Hl Hn; [congruence|]. cbn [fold_left]. rewrite (Hl j) by (now left).
+    change (py_list_set (x :: rest) 0 obj) with (obj :: rest). destruct l as [|j' l']; [reflexivity|].
+    apply IH; [intros; apply Hl; now right|discriminate]. }
+  apply H.
+  - intros j Hj. apply in_seq in Hj. apply Hg. lia.
+  - destruct scheds; [congruence|discriminate]. Qed.
+
+(* ---- is_valid_experiment: QST tests its tester POVMs, POVMT its tester states, QPT / QMPT their states AND their POVMs (each list
+   within itself), with the regenerated is_all_same_composite_systems *)
+Theorem gen_is_valid_experiment_eq : forall (same : Z -> Z -> bool) (states povms : list Z),
+  let all_same := gen_is_all_same_composite_systems F same in
+  gen_qst_is_valid_experiment F povms all_same = all_same povms /\
+  gen_povmt_is_valid_experiment F states all_same = all_same states /\
+  gen_qpt_is_valid_experiment F states povms all_same = (all_same states && all_same povms)%bool /\
+  gen_qmpt_is_valid_experiment F states povms all_same = (all_same states && all_same povms)%bool.
+Proof. intros same states povms all_same. repeat split. Qed.
+
 (* ---- the property, about the code as regenerated: the stacked coefficients computed by the regenerated _set_coeffs + calc_matA /
    calc_vecB predict, for EVERY variable vector, the Born distribution of every schedule's circuit *)
 Theorem gen_qst_forward : forall d para sd (povms : list (list (lvec F))) (scheds : list nat) (v : rvec F),
@@ -416,6 +444,9 @@ Print Assumptions gen_is_fullrank_matA_eq.
 Print Assumptions gen_get_coeffs_0th_vec_eq.
 Print Assumptions gen_get_coeffs_1st_mat_eq.
 Print Assumptions gen_is_all_same_composite_systems_eq.
+Print Assumptions gen_generate_prob_dists_sequence_eq.
+Print Assumptions gen_generate_prob_dists_sequence_slot0.
+Print Assumptions gen_is_valid_experiment_eq.
 Print Assumptions gen_qst_forward.
 Print Assumptions gen_povmt_forward.
 Print Assumptions gen_qpt_forward.
